@@ -610,6 +610,25 @@ def IsBroadcast (addr plen b : Nat) : Prop :=
 def IsBroadcast6 (addr plen b : Nat) : Prop :=
   ∀ i, b.testBit i = (decide (i < 128 - plen) || addr.testBit i)
 
+/-! ### One call, many records
+
+  "Each method returns the documented named tuple filled from the matching slots of the record the
+  native layer hands back, [and] platform-conditional post-processing in the package front end takes
+  effect": the statement speaks record by record. What the front end returns for one native record
+  may depend on that record (and the platform) only — never on which other records the same native
+  answer holds, nor on their order. A record whose broadcast address cannot be computed (no netmask,
+  or a netmask that is not a prefix of the family's width) is returned exactly as handed back. -/
+
+/-- the netmask of an AF_INET / AF_INET6 record is present but is not a prefix of the family's
+    width (here: a `plen` beyond the width stands for every such netmask text) -/
+def NetmaskRejected (r : RawAddr) : Prop :=
+  (r.fam = .inet ∧ ∃ n, r.plen = some n ∧ 32 < n) ∨ (r.fam = .inet6 ∧ ∃ n, r.plen = some n ∧ 128 < n)
+
+/-- `f` post-processes a native answer record by record with `g`: every returned pair comes from
+    one native pair of the same NIC through `g` alone, nothing is lost, nothing invented -/
+def RecordWise (g : RawAddr → OutAddr) (f : List (Nat × RawAddr) → List (Nat × OutAddr)) : Prop :=
+  ∀ rs, (f rs).Perm (rs.map fun x => (x.1, g x.2))
+
 /-! ## 5. The front end's platform-conditional branches -/
 
 inductive FrontClass
